@@ -65,6 +65,8 @@ def process(input_name, enable_debug_db, arch, model_reader_options, compiler_op
     os.makedirs(compiler_options.output_dir, exist_ok=True)
     output_basename = os.path.join(compiler_options.output_dir, os.path.splitext(os.path.basename(input_name))[0])
     DebugDatabase.show_warnings = enable_debug_db
+    # Addresses are keyed by (value based) equivalence ids: do not let a previous compilation in this process leak in
+    TensorAddressMap.clear_address_map()
 
     nng, network_type = model_reader.read_model(input_name, model_reader_options)
 
@@ -354,6 +356,7 @@ def convert(input_model_name):
     if not os.path.exists(input_model_name):
         raise InputFileError(input_model_name, "No such file")
 
+    TensorAddressMap.clear_address_map()
     arch = Imx93ArchitectureFeatures(
         vela_config_files=None,
         system_config=ArchitectureFeatures.DEFAULT_CONFIG,
@@ -395,6 +398,7 @@ def convert(input_model_name):
 
 def convert_bytes(data):
     sys.setrecursionlimit(4000)
+    TensorAddressMap.clear_address_map()
 
     arch = Imx93ArchitectureFeatures(
         vela_config_files=None,
